@@ -38,14 +38,14 @@ THEOREMS = [
     "C13.not_C13_slot_param_to_attr",
     "C13.not_C13_frame_docstring",
 ]
-TMP_ROOT = "/tmp/build/c13"
+TMP_ROOT = "/tmp/build/c13/run_%d" % os.getpid()  # per run (set before the workers fork); outside /repo and /verif
 _TMP = [None]
 
 
 def _tmpdir():
-    if _TMP[0] is None or not os.path.isdir(_TMP[0]):
+    if _TMP[0] is None or not os.path.isdir(_TMP[0]) or not _TMP[0].endswith("_%d" % os.getpid()):
         os.makedirs(TMP_ROOT, exist_ok=True)
-        _TMP[0] = tempfile.mkdtemp(prefix="w%d_" % os.getpid(), dir=TMP_ROOT)
+        _TMP[0] = tempfile.mkdtemp(prefix="w", suffix="_%d" % os.getpid(), dir=TMP_ROOT)
     return _TMP[0]
 
 
